@@ -330,7 +330,7 @@ def rule_r4(chk):
                 break
         chk.ob("C04-R4", "sources.ModelSource._populate_logly", bad is None,
                f"{n_cases} cases (listed names x !all-but flag): a loggable variable is a log-variable iff (it is listed) != (!all-but present); other kinds untouched"
-               if bad is None else f"log list {bad[0]}, all_but={bad[1]!r}: {bad[3]} quantity {bad[2]!r} gets logly={bad[4]!r} (want {bad[5]!r})", sm.loc(pl))
+               if bad is None else f"log list {bad[0]}, all_but={bad[1]!r}: {bad[3]} quantity {bad[2]!r} gets logly={bad[4]!r} (want {bad[5]!r})", sm.loc(pl), sure=True)
     except fin.NotFinite as ex:
         chk.undecided("C04-R4", "sources.ModelSource._populate_logly", f"not evaluable: {ex}", sm.loc(pl))
 
@@ -397,11 +397,40 @@ def rule_r5(chk):
            "each name occurrence is replaced by the token of (its qid, its own shift)", em.loc(h))
 
 
+def rule_r7(chk):
+    chk.rule("C04-R7", "which quantities can be log-variables is decided by one constant everywhere: the assignment of the log status "
+             "(ModelSource._populate_logly), its validation (the log-variable name check in sources.py) and the qid->logly map "
+             "(quantities.create_qid_to_logly) all test `kind in QuantityKind.LOGGABLE_VARIABLE`, and that constant is "
+             "transition | measurement | exogenous variables", floor=4, shape_independent=True)
+    sm = chk.repo.mod("irispie.sources")
+    qm = chk.repo.mod("irispie.quantities")
+    sites = []
+    for mod in (sm, qm):
+        for q, f in mod.functions():
+            for n in ast.walk(f):
+                if isinstance(n, ast.Compare) and len(n.ops) == 1 and isinstance(n.ops[0], (ast.In, ast.NotIn)) and unparse(n.left).endswith(".kind"):
+                    k = dotted(n.comparators[0]) or ""
+                    if k.split(".")[-1].endswith("_VARIABLE") and ("logly" in unparse(f).lower() or "log_" in q.lower() or "log" in q.lower()):
+                        sites.append((mod, q, n, k.split(".")[-1]))
+    for mod, q, n, k in sites:
+        chk.saw(mod, q)
+        chk.ob("C04-R7", f"{mod.name.replace('irispie.', '')}.{q}[kind filter]", k == "LOGGABLE_VARIABLE",
+               f"tests kind against QuantityKind.{k}" + ("" if k == "LOGGABLE_VARIABLE" else " while the other sites use LOGGABLE_VARIABLE: the log status of the kinds "
+                                                          "in the difference (exogenous variables) is validated but never assigned, or the reverse"), mod.loc(n), sure=True)
+    if len(sites) < 3:
+        raise AnalysisError(f"anchor vanished: only {len(sites)} log-status kind filters found")
+    d = qm.class_attr("QuantityKind", "LOGGABLE_VARIABLE")
+    parts = sorted(x.id for x in ast.walk(d) if isinstance(x, ast.Name)) if d is not None else []
+    chk.ob("C04-R7", "quantities.QuantityKind.LOGGABLE_VARIABLE", parts == ["EXOGENOUS_VARIABLE", "MEASUREMENT_VARIABLE", "TRANSITION_VARIABLE"] if d is not None else None,
+           f"LOGGABLE_VARIABLE = {unparse(d) if d is not None else '?'}", qm.loc(d) if d is not None else qm.rel, sure=True)
+
+
 def run(chk):
     chk.guard(rule_r1_r3, chk)
     chk.guard(rule_r2, chk)
     chk.guard(rule_r4, chk)
     chk.guard(rule_r5, chk)
+    chk.guard(rule_r7, chk)
     from .. import args as _args
     chk.guard(_args.apply, chk, "C04-R90", {'equations', 'parsers', 'sources'}, 1)
     chk.assumptions = [
